@@ -158,6 +158,22 @@ Theorem C01_value_of_a_builtin_function :
 Proof. exact builtin_value_simulation. Qed.
 Print Assumptions C01_value_of_a_builtin_function.
 
+(* ---- the compiled zone command (Lang/Simulation.v, sim_one_zone) ----
+   `set L zone a b` / `set L zone a` with L a string, a constant or a variable and a, b ordinary values or call-free expressions:
+   whenever the reference semantics runs the statement (the delay, then the zone command of the device model with the values
+   of a and b at that moment: zones a .. b inclusive as one message, nothing for a light that has no zones), the compiled code
+   -- WAIT; the name; a into FIRST_ZONE; b (or None) into LAST_ZONE; the multi-zone operand; COLOR -- runs on the machine model
+   to the instruction behind it with exactly the same events, and the states correspond again. *)
+Theorem C01_zone_command_compiled_runs_as_its_source_says :
+  forall rt mt n a b, zone_ok mt n a b = true ->
+  forall im ss s ss' fuel, sim ss s -> code_at im (m_pc s) (c_stmt rt mt false None (SSet (OpList [Zone n a b]))) ->
+  Sem.exec rt mt fuel false ss (SSet (OpList [Zone n a b])) = ROk SigNormal ss' ->
+  simulates im ss s ss' (c_stmt rt mt false None (SSet (OpList [Zone n a b]))).
+Proof.
+  intros rt mt n a b Hz. apply atom_simulation. cbn [simple_atom simple_ops forallb simple_opnd andb]. rewrite Hz. reflexivity.
+Qed.
+Print Assumptions C01_zone_command_compiled_runs_as_its_source_says.
+
 Example C01_program_nonvacuous :
   let p := [SDefineRoutine "blink" ["n"; "h"]
               (SBlock [SReg R_HUE (RVar "h");
